@@ -7,6 +7,10 @@
             C08_exactly_once every terminated model run has exactly this multiset of callbacks).
     CSub  : a run with an injected error: observed callbacks are a sub-multiset of the selected set
             (C08_at_most_once).
+    CSelAt, CSubAt: the same two relations for a walk started below the root, Run(base) with
+            [base] a directory path ending in "/" and [root] the entries of that directory (the
+            model's selected set is parametric in the base path; the code concatenates base and
+            names in the same way).
     CSched: schedule replay.  The model is run on the given schedule; whether all consumers exited
             and the multiset of callbacks must equal what the implementation did when the same
             interleaving was forced through the gated source and the verif hook points. *)
@@ -15,6 +19,8 @@ From GC Require Import Common.Base Model.Loop.
 Inductive case :=
 | CSel (root : list tree) (hasdf hasff ondir onfile : bool) (facc dacc : list path) (obs : list item)
 | CSub (root : list tree) (hasdf hasff ondir onfile : bool) (facc dacc : list path) (obs : list item)
+| CSelAt (base : path) (root : list tree) (hasdf hasff ondir onfile : bool) (facc dacc : list path) (obs : list item)
+| CSubAt (base : path) (root : list tree) (hasdf hasff ondir onfile : bool) (facc dacc : list path) (obs : list item)
 | CSched (cte : bool) (root : list tree) (cm pm : nat) (sched : list tid) (exited : bool) (obs : list item).
 
 Definition ROOT : path := [46; 47].   (* Run("") walks "./" *)
@@ -37,6 +43,10 @@ Definition check (c : case) : bool :=
     perm_b obs sel0 && wf_list root   (* hypothesis of C08_no_duplicates holds on the generated tree *)
   | CSub root hasdf hasff ondir onfile facc dacc obs =>
     sub_b obs (sel_list (cfg_of hasdf hasff ondir onfile facc dacc) ROOT root)
+  | CSelAt base root hasdf hasff ondir onfile facc dacc obs =>
+    perm_b obs (sel_list (cfg_of hasdf hasff ondir onfile facc dacc) base root) && wf_list root
+  | CSubAt base root hasdf hasff ondir onfile facc dacc obs =>
+    sub_b obs (sel_list (cfg_of hasdf hasff ondir onfile facc dacc) base root)
   | CSched cte root cm pm sched exited obs =>
     let cfg := mkCfg (fun _ => true) (fun _ => true) false true true (fun _ => false) (fun _ => false)
                      pm cm 1000%nat 1000%nat (if cte then ClosedThenEmpty else EmptyThenClosed) in
